@@ -831,6 +831,7 @@ package seccomp
 //@     invariant @bf forall(k, i + 1, nJ, resBF(old(*p), p.instructions, k))
 //@     invariant @grow len(p.instructions) >= n0
 //@     invariant @closed {C05} ok(old(p)) ==> closed(p.instructions) && retsInSet(p.instructions, old(p.R))
+//@     decreases i + 1
 //@   ghost assume len(p.instructions) < 4294967294 at loop 1 body
 //@   assert @xi p.jumps[i].index == old(p.jumps)[i].index && ghost.apos[old(p.jumps)[i].index] == old(p.jumps)[i].index at loop 1 body
 //@   assert @above forall(k, i + 1, nJ, ghost.apos[old(p.jumps)[k].index] > p.jumps[i].index) at loop 1 body
